@@ -232,19 +232,39 @@ class FnEnvFlow:
         obj = any(v == 1 and bb in self.dom.get(call_bb, ()) for bb, v in e["is_obj"])
         return ("local", tuple(sorted(set(base))), tuple(sorted(ins)), "obj" if obj else "")
 
-    def rows(self):
+    def rows(self, depth=0):
         envs = self.env_locals()
         out = []
         bodies = [(self.fn, self)]
         for bb, t in self.body.calls():
             n = callee_name(t) or ""
+            if not n.startswith("<%s>::" % A):
+                continue
+            q = t["f"].get("r") or n
+            if self.F.is_new_fn(q) and depth < 3 and self.F.fn_opt(q) is not None and self.F.fn_opt(q).body is not None:
+                # a helper that did not exist on the reference tree: its hand-offs are listed as if they stood here, with its
+                # parameters replaced by the arguments of this call
+                sub = FnEnvFlow(self.F, self.F.fn_opt(q))
+                for r in sub.rows(depth + 1):
+                    child = r["child"]
+                    if child and isinstance(child[0], str) and child[0].startswith("arg") and child[0][3:].isdigit():
+                        i = int(child[0][3:])
+                        if 1 <= i <= len(t["xs"]):
+                            child = tuple(self.ast_path(t["xs"][i - 1])) + tuple(child[1:])
+                    env = r["env"]
+                    root = r.get("env_root")
+                    if root is not None and root[0] == "param" and 1 <= root[1] <= len(t["xs"]):
+                        env = self.describe_env(envs, self.env_root(t["xs"][root[1] - 1]), bb)
+                    out.append({"fn": self.fn.q, "bb": bb, "callee": r["callee"], "child": child, "env": env,
+                                "env_root": None, "site": self.body.span(t["sp"])})
+                continue
             if not n.startswith("<%s>::analyze_" % A):
                 continue
             child = self.ast_path(t["xs"][1])
             envop = [x for x in t["xs"] if "t" in x and "Env" in self.body.ty(x["t"])["s"]]
             root = self.env_root(envop[0]) if envop else None
             out.append({"fn": self.fn.q, "bb": bb, "callee": n.rsplit("::", 1)[1], "child": child,
-                        "env": self.describe_env(envs, root, bb), "site": self.body.span(t["sp"])})
+                        "env": self.describe_env(envs, root, bb), "env_root": root, "site": self.body.span(t["sp"])})
         return out
 
 
